@@ -321,6 +321,37 @@ func init() {
 								lfoBase, _ = seam.Dump(db)
 								lfoOld = captureState(e)
 							}
+							if op.Kind == "delto" && op.N >= legacyTop && op.N < e.M.Latest && e.M.First <= op.N && e.M.Exists(op.N) && !e.M.Dirty && e.M.Base == e.M.Latest && (c.Index+f+e.Step)%3 == 0 {
+								// a version covered by the request - a legacy one if there still is one - is pinned
+								// by an open Exporter: the request must be rejected and must not have deleted or
+								// hidden anything (legacy versions are deleted "at once", before the others)
+								pinned := e.M.First + int64(c.Rng.Intn(int(op.N-e.M.First+1)))
+								if e.M.First <= legacyTop && c.Rng.Intn(2) == 0 {
+									pinned = e.M.First
+								}
+								if it, err := e.T.GetImmutable(pinned); err == nil {
+									if exp, err := it.Export(); err == nil {
+										before, _ := seam.Dump(db)
+										availBefore := fmt.Sprint(e.T.AvailableVersions())
+										derr := e.T.DeleteVersionsTo(op.N)
+										after, _ := seam.Dump(db)
+										switch {
+										case derr == nil:
+											e.Bad("legacy|pinned|accepted", "DeleteVersionsTo(%d) succeeded while an Exporter holds version %d (legacy versions up to %d)", op.N, pinned, legacyTop)
+										case !before.Equal(after):
+											e.Bad("legacy|pinned|store-changed", "the rejected DeleteVersionsTo(%d) (version %d pinned by an export; legacy versions up to %d) changed the raw store", op.N, pinned, legacyTop)
+										case fmt.Sprint(e.T.AvailableVersions()) != availBefore:
+											e.Bad("legacy|pinned|versions-hidden", "after the rejected DeleteVersionsTo(%d) (version %d pinned by an export) the handle lists versions %v, before it listed %s", op.N, pinned, e.T.AvailableVersions(), availBefore)
+										}
+										exp.Close()
+										c.Obs("pinned_rejections_on_a_legacy_database", 1)
+										if len(c.Res.Violations) > 0 {
+											e.Dead = true
+											break
+										}
+									}
+								}
+							}
 							out := e.Apply(op, true)
 							if e.Dead {
 								break
